@@ -1,6 +1,6 @@
 #!/bin/sh
 # usage: tools/mutant.sh <patch file> <check id> [more ids...]   (runs quick tier on a scratch worktree with the patch applied)
-P="$1"; shift
+P="$(readlink -f "$1")"; shift
 WT=/tmp/vfmut.$$
 git -C /repo worktree add -q --detach "$WT" HEAD || exit 2
 ( cd "$WT" && git apply "$P" ) || { git -C /repo worktree remove --force "$WT"; echo "patch does not apply"; exit 2; }
